@@ -299,6 +299,7 @@ func callsAny(p *Prog, fn *ssa.Function, set map[*ssa.Function]bool) bool {
 func runC06(c *Ctx) {
 	r := c.R
 	r.Doc("N0", "role resolution", 2)
+	r.Doc("N11", "the scheduler's resources (interrupter ticker, channels, maps) are created for the instance by its constructor, not shared through package-level objects", 10)
 	r.Doc("N1", "input receives never block the round: select with default, or with a ticker clause of bounded ticks", 4)
 	r.Doc("N2", "blocking release receives only under proceed==false of the round-start calculation or inside the wait-for-zero loop", 4)
 	r.Doc("N3", "round structure: wait -> spend -> re-divide remainder (measured before any reset) -> spend again when filled", 4)
@@ -321,6 +322,8 @@ func runC06(c *Ctx) {
 		}
 		checkN1(c, pr)
 		checkN1b(c, pr)
+		// N11: the interrupter (and every other resource of the scheduler) belongs to this instance
+		checkOwnResources(c, p, "N11", func(d *Disc, field string) bool { return d == pr.d })
 		checkN2(c, pr)
 		checkN2b(c, pr)
 		checkN78(c, pr)
